@@ -53,9 +53,14 @@ def main():
             results[p] = {'exit': c.returncode, 'verdict': 'KILLED' if c.returncode == 1 else ('SURVIVED' if c.returncode == 0 else 'ERROR'),
                           'keys': keys[:6]}
             ran.append('./check %s quick (VERIF_REPO=patched copy) -> exit %d %s' % (p, c.returncode, keys[:3]))
-        print('confirmed' if ok else 'NOT CONFIRMED', json.dumps(results))
+        def say(*a):
+            try:
+                print(*a)
+            except BrokenPipeError:
+                pass
+        say('confirmed' if ok else 'NOT CONFIRMED', json.dumps(results))
         for ln in ran:
-            print('  ', ln)
+            say('  ', ln)
         if not ok:
             print(r0.stdout[-500:], r0.stderr[-500:], r1.stdout[-500:], r1.stderr[-300:], t.stdout[-300:])
             return 1
